@@ -328,6 +328,114 @@ pub closed spec fn kdf_cv(x: CoseKdfContext) -> CV {
         + Seq::new(x.supp_priv_info@.len(), |j: int| CV::Bytes(x.supp_priv_info@[j]@)))
 }
 pub closed spec fn kdf_encodable(x: CoseKdfContext) -> bool { prot_encodable(x.supp_pub_info.protected) }
+// ---- C07 for the KDF-context types: the re-encoding of a decoded value is accepted and decodes to the same value; decode
+// results are unique up to Vec identity; such values encode identically
+use crate::vroundtrip::{lemma_vv_array_shape, lemma_vv_int, lemma_vv_bytes, lemma_bytes_slot, lemma_prot_slot_same, lemma_payload_slot, lemma_regp_of_cv, opt_same, prot_eqv, lemma_prot_res_deterministic, lemma_prot_slot_eqv};
+pub proof fn lemma_party_reenc(v: Value, x: PartyInfo, w: Value)
+    requires party_ok(v), party_res(v, x), vv(w) == party_cv(x),
+    ensures w == v,
+{
+    broadcast use axiom_vv_injective;
+    let a = arr_of(v);
+    lemma_vv_array_shape(w, party_cv(x)->Array_0);
+    let aw = arr_of(w);
+    lemma_payload_slot(a[0], x.identity, aw[0]);
+    lemma_payload_slot(a[2], x.other, aw[2]);
+    assert(vv(a[1]) == nonce_cv(x.nonce)) by { reveal_with_fuel(vv, 1); }
+    assert(aw[1] == a[1]);
+    assert(vv(w) == vv(v)) by {
+        reveal_with_fuel(vv, 1);
+        match v { Value::Array(av) => { lemma_vv_array(av); assert(vv_seq(av@) =~= party_cv(x)->Array_0) by {
+            assert forall |j: int| 0 <= j < 3 implies vv_seq(av@)[j] == (party_cv(x)->Array_0)[j] by { assert(vv_seq(av@)[j] == vv(av@[j])); assert(av@[j] == aw[j]); }
+        } } _ => {} }
+    }
+}
+pub open spec fn nonce_same(a: Option<Nonce>, b: Option<Nonce>) -> bool {
+    match (a, b) { (None, None) => true, (Some(Nonce::Bytes(x)), Some(Nonce::Bytes(y))) => x@ == y@, (Some(Nonce::Integer(x)), Some(Nonce::Integer(y))) => x == y, _ => false }
+}
+pub open spec fn party_same(a: PartyInfo, b: PartyInfo) -> bool { opt_same(a.identity, b.identity) && nonce_same(a.nonce, b.nonce) && opt_same(a.other, b.other) }
+pub proof fn lemma_party_deterministic(v: Value, x1: PartyInfo, x2: PartyInfo)
+    requires party_res(v, x1), party_res(v, x2),
+    ensures party_same(x1, x2), party_cv(x1) == party_cv(x2),
+{ assert(party_cv(x1)->Array_0 =~= party_cv(x2)->Array_0); }
+pub proof fn lemma_supp_pub_reenc(v: Value, x: SuppPubInfo, w: Value)
+    requires supp_pub_ok(v), supp_pub_res(v, x), vv(w) == supp_pub_cv(x),
+    ensures supp_pub_ok(w), supp_pub_res(w, x),
+{
+    let a = arr_of(v);
+    lemma_vv_array_shape(w, supp_pub_cv(x)->Array_0);
+    let aw = arr_of(w);
+    lemma_vv_int(aw[0], x.key_data_length as int);
+    lemma_prot_slot_same(a[1], 0, x.protected, aw[1]);
+    if x.other is Some { lemma_bytes_slot(a[2], x.other->0, aw[2]); }
+}
+pub open spec fn supp_pub_same(a: SuppPubInfo, b: SuppPubInfo) -> bool { a.key_data_length == b.key_data_length && prot_eqv(a.protected, b.protected) && opt_same(a.other, b.other) }
+pub proof fn lemma_supp_pub_deterministic(v: Value, x1: SuppPubInfo, x2: SuppPubInfo)
+    requires supp_pub_res(v, x1), supp_pub_res(v, x2),
+    ensures supp_pub_same(x1, x2), supp_pub_cv(x1) == supp_pub_cv(x2),
+{
+    lemma_prot_res_deterministic(arr_of(v)[1], 0, x1.protected, x2.protected);
+    lemma_prot_slot_eqv(x1.protected, x2.protected);
+    assert(supp_pub_cv(x1)->Array_0 =~= supp_pub_cv(x2)->Array_0);
+}
+pub proof fn lemma_supp_pub_fixed_point(v: Value, x: SuppPubInfo, v1: Value, x1: SuppPubInfo)
+    requires supp_pub_ok(v), supp_pub_res(v, x), vv(v1) == supp_pub_cv(x), supp_pub_res(v1, x1),
+    ensures prot_encodable(x.protected), supp_pub_ok(v1), supp_pub_res(v1, x), supp_pub_same(x1, x), supp_pub_cv(x1) == supp_pub_cv(x),
+{
+    lemma_supp_pub_reenc(v, x, v1);
+    lemma_supp_pub_deterministic(v1, x1, x);
+}
+proof fn lemma_regp_of_wf(v: Value, a: Algorithm)
+    requires regp_of::<iana::Algorithm>(v) == Some(a),
+    ensures wf_regp(a), vv(v) == regp_cv(a),
+{ reveal_with_fuel(vv, 1); <iana::Algorithm as crate::iana::EnumI64>::lemma_enum_laws(); }
+pub proof fn lemma_kdf_reenc(v: Value, x: CoseKdfContext, w: Value)
+    requires kdf_ok(v), kdf_res(v, x), vv(w) == kdf_cv(x),
+    ensures kdf_ok(w), kdf_res(w, x),
+{
+    let a = arr_of(v);
+    let cv = kdf_cv(x)->Array_0;
+    lemma_vv_array_shape(w, cv);
+    let aw = arr_of(w);
+    assert(aw.len() == a.len());
+    lemma_regp_of_wf(a[0], x.algorithm_id);
+    assert(vv(aw[0]) == cv[0]);
+    lemma_regp_of_cv::<iana::Algorithm>(aw[0], x.algorithm_id);
+    assert(vv(aw[1]) == cv[1]); assert(vv(aw[2]) == cv[2]); assert(vv(aw[3]) == cv[3]);
+    lemma_party_reenc(a[1], x.party_u_info, aw[1]);
+    lemma_party_reenc(a[2], x.party_v_info, aw[2]);
+    lemma_supp_pub_reenc(a[3], x.supp_pub_info, aw[3]);
+    assert forall |j: int| 0 <= j < x.supp_priv_info@.len() implies aw[4 + j] == Value::Bytes(#[trigger] x.supp_priv_info@[j]) by {
+        assert(vv(aw[4 + j]) == cv[4 + j]);
+        lemma_bytes_slot(a[4 + j], x.supp_priv_info@[j], aw[4 + j]);
+    }
+    assert forall |i: int| 4 <= i < aw.len() implies (#[trigger] aw[i]) is Bytes by { assert(aw[4 + (i - 4)] == Value::Bytes(x.supp_priv_info@[i - 4])); }
+}
+pub closed spec fn kdf_same(a: CoseKdfContext, b: CoseKdfContext) -> bool {
+    a.algorithm_id == b.algorithm_id && party_same(a.party_u_info, b.party_u_info) && party_same(a.party_v_info, b.party_v_info) && supp_pub_same(a.supp_pub_info, b.supp_pub_info)
+    && a.supp_priv_info@.len() == b.supp_priv_info@.len() && forall |j: int| 0 <= j < a.supp_priv_info@.len() ==> (#[trigger] a.supp_priv_info@[j])@ == b.supp_priv_info@[j]@
+}
+pub proof fn lemma_kdf_deterministic(v: Value, x1: CoseKdfContext, x2: CoseKdfContext)
+    requires kdf_res(v, x1), kdf_res(v, x2),
+    ensures kdf_same(x1, x2), kdf_cv(x1) == kdf_cv(x2),
+{
+    let a = arr_of(v);
+    lemma_party_deterministic(a[1], x1.party_u_info, x2.party_u_info);
+    lemma_party_deterministic(a[2], x1.party_v_info, x2.party_v_info);
+    lemma_supp_pub_deterministic(a[3], x1.supp_pub_info, x2.supp_pub_info);
+    assert forall |j: int| 0 <= j < x1.supp_priv_info@.len() implies (#[trigger] x1.supp_priv_info@[j])@ == x2.supp_priv_info@[j]@ by {
+        assert(a[4 + j] == Value::Bytes(x1.supp_priv_info@[j])); assert(a[4 + j] == Value::Bytes(x2.supp_priv_info@[j]));
+    }
+    assert(kdf_cv(x1)->Array_0 =~= kdf_cv(x2)->Array_0);
+}
+/// C07 for COSE_KDF_Context (and through it PartyInfo / SuppPubInfo)
+pub proof fn lemma_kdf_fixed_point(v: Value, x: CoseKdfContext, v1: Value, x1: CoseKdfContext)
+    requires kdf_ok(v), kdf_res(v, x), vv(v1) == kdf_cv(x), kdf_res(v1, x1),
+    ensures kdf_encodable(x), kdf_ok(v1), kdf_res(v1, x), kdf_same(x1, x), kdf_cv(x1) == kdf_cv(x),
+{
+    lemma_kdf_reenc(v, x, v1);
+    lemma_kdf_deterministic(v1, x1, x);
+}
 »
 
 impl AsCborValue for CoseKdfContext {«
